@@ -248,3 +248,107 @@ def case_deal(props):
     return hx.explore_case(path, dict(max_paths=5000))
 
 
+
+
+# --------------------------------------------------------------------------
+# seat threads: one iteration of PlayerThread._playing_phase / _bidding_phase
+# --------------------------------------------------------------------------
+def _thread(eng, seat_z, inbox, from_main):
+    from bridge_env import Player
+    from bridge_env.network_bridge.server import PlayerThread
+    wires = {}
+    proto.install(eng, wires)
+    w = proto.Wire(inbox)
+    to_main = {p: proto.queue() for p in Player}
+    fm = {p: proto.queue(from_main) for p in Player}       # the thread only reads its own seat's queue
+    th = SObj(PlayerThread, dict(player=SEnum(Player, seat_z), connection=proto.conn(w), _sent_message_queues=to_main,
+                                 _received_message_queues=fm, name='t'))
+    wires[id(th)] = w
+    return th, w, to_main, fm
+
+
+def case_thread_playing_iteration(props, i):
+    """own seat, declarer, seat on turn, trick number symbolic; the client's messages are the ones the bundled client sends"""
+    from bridge_env import Player
+    from bridge_env.network_bridge.server import PlayerThread
+
+    def path(eng):
+        p, d, a, T = z3.Int('own_seat'), z3.Int('declarer'), z3.Int('on_turn'), z3.Int('trick')
+        eng.assume(z3.And(1 <= p, p <= 4, 1 <= d, d <= 4, 1 <= a, a <= 4, 1 <= T, T <= 13))
+        pv, dv, av = (eng.concretize_int(SInt(x), 1, 4) for x in (p, d, a))
+        dummy = (dv + 1) % 4 + 1
+        if i == 0 and T is not None:
+            # trick 1 is led by declarer's left-hand opponent (C04); no such tie for later tricks
+            eng.assume(z3.Implies(T == 1, z3.BoolVal(av == dv % 4 + 1)))
+        first_trick = eng.decide(T == 1)
+        tn = 1 if first_trick else eng.concretize_int(SInt(T), 2, 13)
+        mine = av == pv and pv != dummy
+        for_dummy = pv == dv and av == dummy
+        card_msg = f'{NAMES[av]} plays 7H'
+        relayed = f'{NAMES[av]} plays 7h'
+        who = NAMES[av] if av != dummy else 'dummy'
+        inbox, from_main = [], []
+        if mine or for_dummy:
+            inbox.append(card_msg)
+        else:
+            inbox.append(f"{NAMES[pv]} ready for {who}'s card to trick {tn}")
+            from_main.append(relayed)
+        disclose = tn == 1 and i == 0 and pv != dummy
+        if disclose:
+            inbox.append(f'{NAMES[pv]} ready for dummy')
+            from_main.append("Dummy's cards : <dummy hand>")
+        th, w, to_main, fm = _thread(eng, z3.IntVal(pv), inbox, from_main)
+        loop = loopcut.find_for(PlayerThread._playing_phase, 'i', 'range(4)')
+        cex = lambda m: {'kind': 'thread_playing', 'props': sorted(props), 'seat': pv, 'declarer': dv, 'on_turn': av, 'trick': tn, 'i': i}
+        try:
+            st, frame = loopcut.run_body(eng, PlayerThread._playing_phase, loop,
+                                         dict(self=th, declarer=Player(dv), dummy=Player(dummy), active_player=Player(av), trick_num=tn, i=i))
+        except symx.RaiseEx as e:
+            return dict(outcome='raise', cex=cex, checks=[(f'{q}: the seat thread handles a conforming client ({e.exc!r})', False) for q in sorted(props)])
+        want = []
+        if mine and i == 0:
+            want.append(f'{NAMES[pv]} to lead')
+        elif for_dummy and i == 0:
+            want.append('Dummy to lead')
+        if not (mine or for_dummy):
+            want.append(relayed)
+        if disclose:
+            want.append("Dummy's cards : <dummy hand>")
+        sent = [x if isinstance(x, str) else (x.concrete() if isinstance(x, SStr) and x.is_concrete() else repr(x)) for x in w.outbox]
+        fwd = {q: to_main[Player(q)].attrs['items'] for q in range(1, 5)}
+        chk = [('the connection is sent exactly: the lead prompt only if this seat must lead now ("Dummy to lead" to declarer when dummy leads), the relayed card '
+                'unless this connection played it, dummy\'s cards only after the opening lead and not to dummy', sent == want),
+               ('the card received from the client is forwarded to the main thread through this seat\'s queue, and nothing else',
+                fwd == {q: ([card_msg] if (q == pv and (mine or for_dummy)) else []) for q in range(1, 5)}),
+               ('every message offered by the client and the main thread was consumed in order', not w.inbox and not fm[Player(pv)].attrs['items']),
+               ('the turn advances to the left-hand seat', frame.locs.get('active_player') is Player(av % 4 + 1))]
+        return dict(outcome='seat thread iteration', cex=cex, checks=[(f'{q}: {l}', c) for l, c in chk for q in sorted(props)])
+    return hx.explore_case(path, dict(max_paths=20000))
+
+
+def case_thread_bidding_iteration(props):
+    from bridge_env import Player
+    from bridge_env.network_bridge.server import PlayerThread, Server
+
+    def path(eng):
+        p, a = z3.Int('own_seat'), z3.Int('on_turn')
+        eng.assume(z3.And(1 <= p, p <= 4, 1 <= a, a <= 4))
+        pv, av = eng.concretize_int(SInt(p), 1, 4), eng.concretize_int(SInt(a), 1, 4)
+        mine = pv == av
+        call_msg = f'{NAMES[av]} bids 1NT Alert.'
+        relayed = f'{NAMES[av]} bids 1NT'
+        inbox = [call_msg] if mine else [f"{NAMES[pv]} ready for {NAMES[av]}'s bid"]
+        from_main = [NAMES[av]] + ([] if mine else [relayed]) + [Server.Message.NULL]
+        th, w, to_main, fm = _thread(eng, z3.IntVal(pv), inbox, from_main)
+        cex = lambda m: {'kind': 'thread_bidding', 'props': sorted(props), 'seat': pv, 'on_turn': av}
+        try:
+            r = eng.call_function(PlayerThread._bidding_phase, [th], {})
+        except symx.RaiseEx as e:
+            return dict(outcome='raise', cex=cex, checks=[(f'{q}: the seat thread handles a conforming client ({e.exc!r})', False) for q in sorted(props)])
+        sent = list(w.outbox)
+        fwd = {q: to_main[Player(q)].attrs['items'] for q in range(1, 5)}
+        chk = [('the connection is sent the relayed call exactly when another seat called, nothing when it called itself', sent == ([] if mine else [relayed])),
+               ('the seat\'s own call is forwarded to the main thread as received', fwd == {q: ([call_msg] if (q == pv and mine) else []) for q in range(1, 5)}),
+               ('the auction loop ends on the end marker', r is True and not fm[Player(pv)].attrs['items'])]
+        return dict(outcome='seat thread auction iteration', cex=cex, checks=[(f'{q}: {l}', c) for l, c in chk for q in sorted(props)])
+    return hx.explore_case(path, dict(max_paths=5000))
